@@ -1,13 +1,14 @@
 import RbV.Basic.Codec
 import RbV.Ref.SA
 import RbV.Model.Occ
+import RbV.Model.OccTable
 /-! Driver for property C04 (BWT, less, Occ for all sampling rates, inverse BWT).
 
-`c04 <text> k:<k> a:<alphabet> q:<query symbols> => <sa>;<bwt>;<less[c], c∈q>;<col(c)>/…;<inverse or ->`
+`c04 t <text> k:<k> a:<alphabet> q:<query symbols> => <sa>;<bwt>;<less[c], c∈q>;<col(c)>/…;<inverse or ->`
 
 * bwt      = `bwtRef text sa`                               (and the mirror `bwtModel`)
 * less[c]  = `lessRef bwt c`                                (and the mirror `lessModel bwt (max a + 2)`)
-* col(c)   = `occCol bwt c`  (row r ↦ `occRef bwt r c`)      (and the mirror `occGet (occNewLoop bwt k c) bwt k r c`)
+* col(c)   = `occCol bwt c`  (row r ↦ `occRef bwt r c`)      (and the mirror `occGet (occTable bwt k alpha m)[c] bwt k r c`)
 * inverse  = text, for single-sentinel texts
 A disagreement between a mirror model and the observation where the specification agrees with the observation is
 reported as tag `drift` (cannot happen as long as the refinement theorems hold), never as a violation. -/
@@ -40,7 +41,7 @@ def dedupTags (l : List String) : List String :=
 
 def verdict (toks : List String) (out : String) : String :=
   match toks with
-  | [th, kf, af, qf] =>
+  | ["t", th, kf, af, qf] =>
     match parseHex th, (field kf).bind (fun p => if p.1 = "k" then p.2.toNat? else none),
           (field af).bind (fun p => if p.1 = "a" then parseHex p.2 else none),
           (field qf).bind (fun p => if p.1 = "q" then parseHex p.2 else none) with
@@ -54,12 +55,12 @@ def verdict (toks : List String) (out : String) : String :=
           if lessObs.length ≠ q.length || cols.length ≠ q.length then "bad-op arity" else
           -- BWT
           let bwtE := bwtRef t sa
-          if bwt ≠ bwtE then "diff bwt:" ++ toHex bwtE else
+          if bwt ≠ bwtE then "diff bwt " ++ toHex bwtE else
           let driftB := bwtModel t sa ≠ bwt
           -- less
           let lessE := q.map (fun c => some (lessRef bwt c))
           if lessObs ≠ lessE then
-            "diff less:" ++ ",".intercalate (q.map fun c => toString (lessRef bwt c)) else
+            "diff less " ++ ",".intercalate (q.map fun c => toString (lessRef bwt c)) else
           let m := a.foldl max 0 + 2
           let lm := lessModel bwt m
           let driftL := q.map (fun c => lm[c]?) ≠ lessObs
@@ -73,14 +74,18 @@ def verdict (toks : List String) (out : String) : String :=
               ++ " got:" ++ (match col[r]? with | some v => toString v | none => "none")
           | none =>
             let rows := List.range n
-            let cps := q.map (fun c => (c, occNewLoop bwt k c))
+            -- the mirror of `Occ::new`: table size max+1, tracked symbols = alphabet (+ `$` when below the size)
+            let mt := a.foldl max 0 + 1
+            let alpha := if 36 < mt && !a.contains 36 then a ++ [36] else a
+            let table := occTable bwt k alpha mt
+            let cps := q.map (fun c => (c, (table[c]?).getD []))
             let driftO := (cps.zip cols).any (fun p =>
               rows.map (fun r => occGet p.1.2 bwt k r p.1.1) ≠ p.2)
             let branches := dedupTags (cps.flatMap (fun p => dedupTags (rows.map (fun r => occBranch p.2 k r))))
             -- inverse
             let single := t.count (sentinelOf t) = 1
             let invOk := if single then invS = toHex t else invS = "-"
-            if !invOk then "diff inv:" ++ (if single then toHex t else "-") else
+            if !invOk then "diff inv " ++ (if single then toHex t else "-") else
             let nt := n ≥ 4 && (dedupTags (bwt.map toString)).length ≥ 2
             "ok" ++ (if nt then " nt" else "")
               ++ (if k > 64 then " k>64" else " k<=64")
